@@ -148,7 +148,7 @@ instr_harness!(c14_q_cfa_neg_d1, da = 1, |a, b, da| { kani::assume(b < 0); WI::C
 
 instr_harness!(c14_t_cfa_neg_d4, da = 4, |a, b, da| { kani::assume(b < 0); WI::Cfa(Register(a), b) }, true, Enc::new(0x12).uleb(a as u64).sleb(fo(b, da)));
 
-instr_harness!(c14_t_cfa_neg_dm1, da = -1, |a, b, da| { kani::assume(b < 0); WI::Cfa(Register(a), b) }, true, Enc::new(0x12).uleb(a as u64).sleb(fo(b, da)));
+instr_harness!(c14_q_cfa_neg_dm1, da = -1, |a, b, da| { kani::assume(b < 0); WI::Cfa(Register(a), b) }, true, Enc::new(0x12).uleb(a as u64).sleb(fo(b, da)));
 
 instr_harness!(c14_t_cfa_neg_d3, da = 3, |a, b, da| { kani::assume(b < 0); WI::Cfa(Register(a), b) }, true, Enc::new(0x12).uleb(a as u64).sleb(fo(b, da)));
 
@@ -162,7 +162,7 @@ instr_harness!(c14_q_cfa_offset_neg_d1, da = 1, |a, b, da| { kani::assume(b < 0)
 
 instr_harness!(c14_t_cfa_offset_neg_d4, da = 4, |a, b, da| { kani::assume(b < 0); WI::CfaOffset(b) }, true, Enc::new(0x13).sleb(fo(b, da)));
 
-instr_harness!(c14_t_cfa_offset_neg_dm1, da = -1, |a, b, da| { kani::assume(b < 0); WI::CfaOffset(b) }, true, Enc::new(0x13).sleb(fo(b, da)));
+instr_harness!(c14_q_cfa_offset_neg_dm1, da = -1, |a, b, da| { kani::assume(b < 0); WI::CfaOffset(b) }, true, Enc::new(0x13).sleb(fo(b, da)));
 
 instr_harness!(c14_t_cfa_offset_neg_d3, da = 3, |a, b, da| { kani::assume(b < 0); WI::CfaOffset(b) }, true, Enc::new(0x13).sleb(fo(b, da)));
 
@@ -195,7 +195,7 @@ instr_harness!(c14_t_offset_d4, da = 4, |a, b, da| WI::Offset(Register(a), b), t
     Enc::new(0x05).uleb(a as u64).uleb(fo(b, da) as u64)
 });
 
-instr_harness!(c14_t_offset_dm1, da = -1, |a, b, da| WI::Offset(Register(a), b), true, if fo(b, da) < 0 {
+instr_harness!(c14_q_offset_dm1, da = -1, |a, b, da| WI::Offset(Register(a), b), true, if fo(b, da) < 0 {
     Enc::new(0x11).uleb(a as u64).sleb(fo(b, da))
 } else if a < 0x40 {
     Enc::new(0x80 | a as u8).uleb(fo(b, da) as u64)
@@ -237,7 +237,7 @@ instr_harness!(c14_t_val_offset_d4, da = 4, |a, b, da| WI::ValOffset(Register(a)
     Enc::new(0x14).uleb(a as u64).uleb(fo(b, da) as u64)
 });
 
-instr_harness!(c14_t_val_offset_dm1, da = -1, |a, b, da| WI::ValOffset(Register(a), b), true, if fo(b, da) < 0 {
+instr_harness!(c14_q_val_offset_dm1, da = -1, |a, b, da| WI::ValOffset(Register(a), b), true, if fo(b, da) < 0 {
     Enc::new(0x15).uleb(a as u64).sleb(fo(b, da))
 } else {
     Enc::new(0x14).uleb(a as u64).uleb(fo(b, da) as u64)
